@@ -199,6 +199,7 @@ Fixpoint decode (l : list Uint63.int) : list item :=
        | 8 => In t (ISetAttempts a)
        | 9 => In t IConfigure
        | 17 => In t (IShiftHs (a * sec))
+       | 18 => In t (ISetPka a)
        | 10 => Out t OInit
        | 11 => Out t OResp
        | 12 => Out t OKeepalive
